@@ -51,8 +51,14 @@ Definition run_findrule (a : sx) : sx :=
       let entries := map (fun e => (sx_Z (sx_nth e 0), sx_Zs (sx_nth e 1))) (sx_list (sx_nth a 8)) in
       let nocap := sx_Zs (sx_nth a 9) in
       let cap := fun sid => negb (mem sid nocap) in
-      let get_r := if mode =? 0 then dict_lookup rs else rec_lookup T pack false (map (fun kv => flatten (fst kv)) rs) in
-      let get_e := if mode =? 0 then dict_lookup es else rec_lookup T pack true (map (fun kv => flatten (fst kv)) es) in
+      (* mode 0: the dicts of RuleDB; 1: RecomputingDict as it was before 59cdf67 (replay on the classes of
+         the key only); 2: RecomputingDict as it is (then on every other labelled class) *)
+      let other := fun (d0 : cdbT) (k : key) =>
+        filter (fun l => negb (mem l (fst k :: snd k))) (map Z.of_nat (seq 0 (length (ClassDB.Model.classes d0)))) in
+      let rec_x := fun (only_equiv : bool) (st : rstore_t) => (fun d0 k =>
+        rec_getitem_x T (if mode =? 2 then other d0 k else []) pack only_equiv st d0 k) : lookup in
+      let get_r := if mode =? 0 then dict_lookup rs else rec_x false (map (fun kv => flatten (fst kv)) rs) in
+      let get_e := if mode =? 0 then dict_lookup es else rec_x true (map (fun kv => flatten (fst kv)) es) in
       let '(d', fs, e) := rules T cap get_r get_e convert d entries in
       L [I (match e with None => 0 | Some x => ferr_code x end);
          L (map (enc_form T cap) fs);
